@@ -21,3 +21,6 @@ void inst_scalar(const dataset_t& d, const indices_t& s, tensor_size_t f, const 
 void inst_sclass(const dataset_t& d, const indices_t& s, tensor_size_t f, const op_sclass_t& op) { wlearner::loop_sclass(d, s, f, op); }
 void inst_mclass(const dataset_t& d, const indices_t& s, tensor_size_t f, const op_mclass_t& op) { wlearner::loop_mclass(d, s, f, op); }
 } // namespace nvdrv
+// enumerator values used as `case` labels in the C rendering of table.cpp's process() (specs/C10/table.h)
+static_assert(static_cast<int>(nano::feature_type::sclass) == 10, "NVE_feature_type_sclass");
+static_assert(static_cast<int>(nano::feature_type::mclass) == 11, "NVE_feature_type_mclass");
